@@ -291,9 +291,11 @@ _SENT = {}
 
 
 def arm_sentences(F, fnm):
-    key = (id(F), fnm)
+    import os
+    bound = 4 if os.environ.get("VERIF_TIER") == "thorough" else printer.BOUND
+    key = (id(F), fnm, bound)
     if key not in _SENT:
-        _SENT[key] = printer.arm_sentences(F, fnm)
+        _SENT[key] = printer.arm_sentences(F, fnm, bound)
     return _SENT[key]
 
 
